@@ -1138,18 +1138,18 @@ func TestProp(t *testing.T) {
 			enumerate(s, run, L)
 		})
 
-	run.Check("gen", 48000, 800000, genRule, func(t *rapid.T, s *rt.Section) {
+	run.Check("gen", 36000, 500000, genRule, func(t *rapid.T, s *rt.Section) {
 		c, kind := drawGenCase(t)
 		judge(t, s, c, kind)
 	})
 
-	run.Check("mut", 30000, 500000, mutRule, func(t *rapid.T, s *rt.Section) {
+	run.Check("mut", 24000, 300000, mutRule, func(t *rapid.T, s *rt.Section) {
 		c, kind := drawMutCase(t)
 		judge(t, s, c, kind)
 	})
 
-	run.Check("conc", 600, 16000, concRule, func(t *rapid.T, s *rt.Section) { concProp(t, s, false) })
-	run.Check("race", 250, 4000, concRule+"; built with the race detector (while finding C19-F07 is open its avoid switch parallel_parse makes the VMs of a plan run one after the other)",
+	run.Check("conc", 500, 10000, concRule, func(t *rapid.T, s *rt.Section) { concProp(t, s, false) })
+	run.Check("race", 200, 2000, concRule+"; built with the race detector (while finding C19-F07 is open its avoid switch parallel_parse makes the VMs of a plan run one after the other)",
 		func(t *rapid.T, s *rt.Section) { concProp(t, s, true) })
 }
 
